@@ -123,6 +123,12 @@ fn res_of(shape: &str) -> (IpResources, IpResources, AsResources) {
             IpResources::blocks([v6("::/128"), v6("ffff:ffff:ffff:ffff:ffff:ffff:ffff:ffff/128")].into_iter().collect::<IpBlocks>()),
             AsResources::blocks([AsBlock::Id(Asn::from_u32(0)), AsBlock::Id(Asn::from_u32(u32::MAX))].into_iter().collect::<AsBlocks>()),
         ),
+        "woven" => (
+            IpResources::blocks([v4("10.0.0.0/24"), v4("10.0.2.0/24"), v4("10.0.4.0/24"), v4("10.0.1.0/24"), v4("10.0.3.0/24"),
+                                 v4("172.16.6.0/24"), v4("172.16.4.0/24"), v4("172.16.2.0/24"), v4("172.16.0.0/24"), v4("172.16.5.0/24"), v4("172.16.3.0/24"), v4("172.16.1.0/24")].into_iter().collect::<IpBlocks>()),
+            IpResources::blocks([v6("2001:db8:0::/48"), v6("2001:db8:2::/48"), v6("2001:db8:4::/48"), v6("2001:db8:1::/48"), v6("2001:db8:3::/48")].into_iter().collect::<IpBlocks>()),
+            AsResources::blocks([asr(10, 19), asr(30, 39), asr(50, 59), asr(20, 29), asr(40, 49)].into_iter().collect::<AsBlocks>()),
+        ),
         _ => (IpResources::inherit(), IpResources::inherit(), AsResources::inherit()),
     }
 }
